@@ -208,6 +208,8 @@ def check(R, F, P, cfg):
                    where=n.where(), cfg=cfg)
     R.inst("R12.3", "collect-callers", got <= expected and got, "callers of collect: %s (allowed: %s)" % (sorted(got), sorted(expected)), cfg=cfg)
 
+    check_wrappers(R, F, P, cfg, "R12.5")
+
     # ---- R12.4 try_unwrap refusal paths are effect free --------------------------------------
     R.doc("R12.4", "every path of Cc::try_unwrap on which a phase flag read is true returns Err(self) with no mutator executed; finalize_again's flag write is dominated by all three flags being false")
     tu = anchor(F, "cc::Cc::<T>::try_unwrap")
